@@ -16,15 +16,16 @@ VARIABLES tid, l, folds, sizes, testIdx, haveIdx, nTrain, predSeen, written, fai
           fit,      \* thread -> state of the Model.fit running on it (ModelFit.tla: Start / FitEstimator / Relabel / Done)
           buf,      \* buffered writer -> [app, wr, size, fin] (TabularWrite.tla: Append / Flush / Finalize)
           stage,    \* command-line run (Pipeline.tla): 0 not started / finished, 1 verifying inputs, 2 inputs parsed and named
-          parsed    \* row counts of the tables parsed since the command-line run began (cross-stage conservation)
-vars == <<tid, l, folds, sizes, testIdx, haveIdx, nTrain, predSeen, written, failedAt, fit, buf, stage, parsed>>
+          parsed,   \* row counts of the tables parsed since the command-line run began (cross-stage conservation)
+          mode      \* BrewModes.tla: "none" before the models are sorted, then "all_trained" | "reset" | "some_untrained"
+vars == <<tid, l, folds, sizes, testIdx, haveIdx, nTrain, predSeen, written, failedAt, fit, buf, stage, parsed, mode>>
 T == Traces[tid]
 E == T.events[l]
 SeqSet(s) == {s[i] : i \in 1..Len(s)}
 SumSeq(s) == FoldSet(LAMBDA i, a : a + s[i], 0, 1..Len(s))
 Init == /\ tid \in 1..Len(Traces) /\ l = 1 /\ folds = 0 /\ sizes = <<>> /\ testIdx = <<>> /\ haveIdx = FALSE /\ nTrain = 0
         /\ predSeen = <<>> /\ written = <<>> /\ failedAt = <<>>
-        /\ fit = <<>> /\ buf = <<>> /\ stage = 0 /\ parsed = <<>>
+        /\ fit = <<>> /\ buf = <<>> /\ stage = 0 /\ parsed = <<>> /\ mode = "none"
 More == l <= Len(T.events) /\ failedAt = <<>>
 \* ---- per-event obligations: a set of failed clause names ----
 SplitBad ==
@@ -53,6 +54,8 @@ SortedBad ==
    (IF \A i \in 1..(Len(E.folds) - 1) : E.folds[i] < E.folds[i + 1] THEN {} ELSE {"P:ModelsSorted.not_sorted_by_fold"}) \cup
    (IF folds = 0 \/ Len(E.folds) = folds THEN {} ELSE {"D:ModelsSorted.count"})
 PredictBad ==
+   \* BrewModes.tla: the per-fold prediction path is only taken when every fold model is trained and none was reset
+   (IF mode \in {"none", "all_trained"} THEN {} ELSE {"D:PredictChunk.on_the_" \o mode \o "_path"}) \cup
    (IF folds = 0 \/ Len(E.sizes) = folds THEN {} ELSE {"D:PredictChunk.folds"}) \cup
    (IF \A k \in 1..Len(E.sizes) : E.sizes[k] >= 0 THEN {} ELSE {"D:PredictChunk.sizes"})
 DecisionBad ==
@@ -171,6 +174,11 @@ Step ==
   /\ stage' = IF E.ev = "CliVerify" THEN 1 ELSE IF E.ev = "CliPlan" THEN 2 ELSE IF E.ev = "CliConfidenceDone" THEN 0 ELSE stage
   /\ parsed' = IF E.ev = "PinParsed" THEN Append(parsed, E.rows)
                 ELSE IF E.ev = "CliConfidenceDone" \/ (E.ev = "CliVerify" /\ stage = 0) THEN <<>> ELSE parsed
+  /\ mode' = IF E.ev = "Split" \/ E.ev = "Decision" THEN "none"
+              ELSE IF E.ev = "ModelsSorted"
+                     THEN (IF \E i \in 1..Len(E.reset) : E.reset[i] THEN "reset"
+                           ELSE IF \A i \in 1..Len(E.trained) : E.trained[i] THEN "all_trained" ELSE "some_untrained")
+              ELSE mode
   /\ UNCHANGED tid
 Spec == Init /\ [][Step]_vars
 Terminal == ~More
